@@ -157,6 +157,10 @@ func realise(v J, r *Repr, path string) (any, error) {
 func realiseBase(v J, r *Repr, path, h string) (any, error) {
 	switch jstr(v, "k") {
 	case "nil":
+		if h == "nilptr" {
+			var p *int
+			return p, nil
+		}
 		return nil, nil
 	case "bool":
 		return jbool(v, "v"), nil
@@ -229,6 +233,10 @@ func realiseBase(v J, r *Repr, path, h string) (any, error) {
 			out[i] = e
 		}
 		switch h {
+		case "nilslice":
+			if len(out) == 0 {
+				return []any(nil), nil
+			}
 		case "ints":
 			t := make([]int, len(out))
 			for i, e := range out {
@@ -323,6 +331,10 @@ func realiseBase(v J, r *Repr, path, h string) (any, error) {
 			keys = append(keys, k)
 		}
 		switch h {
+		case "nilmap":
+			if len(out) == 0 {
+				return map[string]any(nil), nil
+			}
 		case "mapslice":
 			ms := yaml.MapSlice{}
 			for _, k := range keys {
